@@ -158,7 +158,9 @@ def trace_term(rec, tr, ct):
 def run_one(workdir, idx, rnd, mode, ct):
     import monkeytype.tracing as mt
     nvals = 8
-    src = ProgGen(rnd, nvals).build()
+    # one program per run keeps more than a thousand generator frames suspended at the same time
+    many = 1100 if (idx == 0 and BATCH_SEED % 16 == 0) else 0
+    src = ProgGen(rnd, nvals, many_live=many).build()
     name = f"prog_{os.getpid()}_{idx}"
     path = os.path.join(workdir, name + ".py")
     with open(path, "w") as f:
@@ -183,8 +185,12 @@ def run_one(workdir, idx, rnd, mode, ct):
     k = rnd.choice([0, 0, 1, 3])
     if mode == "c18":
         rate = rnd.choice([1, 2, 2, 3, 10, 100, None])
+        if many:
+            rate = rnd.choice([1, None])
     else:
         rate = rnd.choice([None, None, None, 0])
+        if many:
+            rate = None
     # code filter: admits program code only; rejects a random subset of its code objects, chosen per CODE OBJECT
     # (name + first line), so that two functions sharing a bare name (Base.m / Derived.m) can be decided differently
     all_codes = []
@@ -198,7 +204,7 @@ def run_one(workdir, idx, rnd, mode, ct):
     walk(compile(src, path, "exec"))
     rejected = set()
     if rnd.random() < 0.5:
-        rejected = {c for c in all_codes if rnd.random() < 0.2}
+        rejected = {c for c in all_codes if rnd.random() < 0.2 and not (many and c[0] == "sg")}
 
     def admit(code):
         return code.co_filename in pathset and (code.co_name, code.co_firstlineno) not in rejected
@@ -258,12 +264,17 @@ def run_one(workdir, idx, rnd, mode, ct):
         del sys.modules[name + "_twin"]
     stats = {"events": len(events), "frames": len(rec.frames), "logged": len(impl), "rate": rate, "k": k,
              "filter": use_filter, "rejected": sorted(f"{n}@{l}" for n, l in rejected), "crashed": crashed, "errors": rec.errors[:3],
-             "twin": twin is not None, "gens": src.count("yield"), "awaits": src.count("await Susp"), "residue": len(residue)}
+             "twin": twin is not None, "many_live": many, "gens": src.count("yield"), "awaits": src.count("await Susp"), "residue": len(residue)}
     return {"term": term, "stats": stats, "src": src if idx < 2 else None, "prog": name}
 
 
+BATCH_SEED = 1
+
+
 def main():
+    global BATCH_SEED
     workdir, seed, n, mode = sys.argv[1], int(sys.argv[2]), int(sys.argv[3]), sys.argv[4]
+    BATCH_SEED = seed
     os.makedirs(workdir, exist_ok=True)
     with open(os.path.join(workdir, "vrec.py"), "w") as f:
         f.write(HELPER_SRC)
